@@ -410,6 +410,7 @@ func checkC02(c *Ctx) {
 	c.Clause("every pick is preceded, unconditionally, by the re-examination of expired unhealthy windows (no throttle or debounce between an expiry and the next pick)")
 	c.Clause("the health flag is set to true only where the unhealthy window was found expired under the backend's write lock (a probe's 200 or a helper without that test never re-admits); every ejection stores a new window")
 	c.Clause("each strategy's selection returns a backend whenever one candidate passed the health test (no early nil, no index past the end)")
+	c.Clause("a backend the strategy proposed and IsBackendHealthy accepted is the one the request goes to: nothing but the health test makes findHealthyBackend ask again or give up")
 	c.NotDecided("that the specific pick is right for a given history/rotation; races between the check and the dispatch (the property's own 'moment of dispatch')")
 
 	c.dispatchGuard()
@@ -418,6 +419,7 @@ func checkC02(c *Ctx) {
 	c.strategyHealthGuard()
 	c.selectionComplete()
 	c.probeIndexCoversPool()
+	c.healthyPickIsTaken()
 	// "503 only when none is healthy" includes backends whose window has just expired: the strategies
 	// filter on the raw flag, so every pick is preceded by the expiry re-examination (shared with C04)
 	c.recoveryIndependent()
@@ -864,6 +866,7 @@ func checkC04(c *Ctx) {
 	c.Clause("RemoveBackend deletes the per-name passive failure record under its lock: a backend registered again under the name starts clean")
 	c.Clause("the status the passive check sees is the last one the backend wrote; probe goroutines started in a loop own their loop variable (module Go version < 1.22); the ejection window is the configured unhealthy_timeout on every path")
 	c.Clause("a name identifies one backend: AddBackend refuses a name that is already listed before it changes anything, so the state kept per name (metrics health mirror, passive failure count) describes that backend only")
+	c.Clause("the in-flight gauge least_connections ranks by changes only by ±1 at request start and end in the forwarding function (a pick rejected by the health re-check leaves no mark): a recovered backend is not starved by a phantom connection")
 	c.NotDecided("exact window arithmetic; bounded interleavings of event histories; what the JSON endpoints print")
 
 	lockDiscipline(c, func(k string) bool {
@@ -875,6 +878,9 @@ func checkC04(c *Ctx) {
 	c.passiveThreshold()
 	c.requestContextIsClients()
 	c.backendNamesUnique()
+	// "actually receives traffic again under every strategy": least_connections ranks by the in-flight
+	// gauge, so a gauge that a rejected pick or an ejection leaves off by one starves the recovered backend
+	c.gaugeWriters()
 	c.probeEdges()
 	c.healthMirror()
 	c.recoveryIndependent()
